@@ -2,6 +2,7 @@
 //! parser_logic::preprocess (through the `verif` feature hook) against an executable mirror of the reference
 //! lexer of units/strip/spec.rs.
 use parser::verif_hooks::preprocess;
+mod ssa_check;
 use std::panic::{catch_unwind, AssertUnwindSafe};
 
 #[derive(Clone, Copy, PartialEq)]
@@ -71,7 +72,7 @@ fn unhex(h: &str) -> String {
     let b: Vec<u8> = (0..h.len() / 2).map(|i| u8::from_str_radix(&h[2 * i..2 * i + 2], 16).unwrap()).collect();
     String::from_utf8(b).unwrap()
 }
-fn jstr(s: &str) -> String {
+pub(crate) fn jstr(s: &str) -> String {
     let mut o = String::from("\"");
     for c in s.chars() {
         match c { '"' => o.push_str("\\\""), '\\' => o.push_str("\\\\"), '\n' => o.push_str("\\n"), c if (c as u32) < 0x20 => o.push_str(&format!("\\u{:04x}", c as u32)), c => o.push(c) }
@@ -88,14 +89,14 @@ use program_structure::ir::Statement as IrStatement;
 use program_structure::report::ReportCollection;
 
 #[derive(Clone, Debug)]
-enum S { Simple, If(Vec<S>), IfElse(Vec<S>, Vec<S>), While(Vec<S>), IfBare(Box<S>), WhileBare(Box<S>) }
+pub(crate) enum S { Simple, If(Vec<S>), IfElse(Vec<S>, Vec<S>), While(Vec<S>), IfBare(Box<S>), WhileBare(Box<S>) }
 
 fn size(s: &S) -> usize {
     match s { S::Simple => 1, S::If(b) | S::While(b) => 1 + b.iter().map(size).sum::<usize>(), S::IfElse(a, b) => 1 + a.iter().map(size).sum::<usize>() + b.iter().map(size).sum::<usize>(), S::IfBare(x) | S::WhileBare(x) => 1 + size(x) }
 }
 
 /// all statement lists of total size n
-fn lists(n: usize, memo: &mut std::collections::HashMap<usize, Vec<Vec<S>>>) -> Vec<Vec<S>> {
+pub(crate) fn lists(n: usize, memo: &mut std::collections::HashMap<usize, Vec<Vec<S>>>) -> Vec<Vec<S>> {
     if let Some(v) = memo.get(&n) { return v.clone(); }
     let mut out = vec![];
     if n == 0 { out.push(vec![]); }
@@ -410,6 +411,7 @@ fn main() {
                     und.iter().map(|s| jstr(s)).collect::<Vec<_>>().join(","), twice.iter().map(|s| jstr(s)).collect::<Vec<_>>().join(",")),
             }
         }
+        Some("bounded-ssa") => { ssa_check::ssa_bounded(args.get(2).map(|s| s.as_str()).unwrap_or("quick")); }
         Some("bounded-timebox") => { timebox_bounded(args.get(2).map(|s| s.as_str()).unwrap_or("quick")); }
         Some("bounded") => {
             let tier = args.get(2).map(|s| s.as_str()).unwrap_or("quick");
